@@ -445,7 +445,7 @@ func (it *Interp) checkStats(b *Backend, sigp string) {
 		for _, id := range a.ComponentIDs {
 			found := false
 			for c := 0; c < comps.N; c++ {
-				if b.IDs[c].Index() == id {
+				if b.Reg[c] && b.IDs[c].Index() == id {
 					mask |= 1 << uint(c)
 					per += int(comps.All[c].Size)
 					found = true
@@ -460,7 +460,7 @@ func (it *Interp) checkStats(b *Backend, sigp string) {
 		}
 		for j, id := range a.ComponentIDs {
 			for c := 0; c < comps.N; c++ {
-				if b.IDs[c].Index() == id && (a.ComponentTypes[j] != comps.All[c].Type || a.ComponentTypeNames[j] != comps.All[c].Type.Name()) {
+				if b.Reg[c] && b.IDs[c].Index() == id && (a.ComponentTypes[j] != comps.All[c].Type || a.ComponentTypeNames[j] != comps.All[c].Type.Name()) {
 					fail(sigp+"|archetype|component-types", "%s: archetype %d component %d is reported as type %v / %q, registered as %v", where, ai, id, a.ComponentTypes[j], a.ComponentTypeNames[j], comps.All[c].Type)
 				}
 			}
@@ -557,10 +557,13 @@ func (it *Interp) checkStats(b *Backend, sigp string) {
 	if st.Observers != no {
 		fail(sigp+"|world|observers", "%s: Observers=%d, model %d", where, st.Observers, no)
 	}
-	if len(st.ComponentTypes) != b.Cfg.Filler+comps.N+it.M.Extra || len(st.ComponentTypeNames) != len(st.ComponentTypes) {
-		fail(sigp+"|world|component-types", "%s: %d component types reported, %d registered", where, len(st.ComponentTypes), b.Cfg.Filler+comps.N+it.M.Extra)
+	if len(st.ComponentTypes) != b.numTypes(it.M) || len(st.ComponentTypeNames) != len(st.ComponentTypes) {
+		fail(sigp+"|world|component-types", "%s: %d component types reported, %d registered", where, len(st.ComponentTypes), b.numTypes(it.M))
 	}
 	for c := 0; c < comps.N; c++ {
+		if !b.Reg[c] {
+			continue
+		}
 		id := int(b.IDs[c].Index())
 		if id < len(st.ComponentTypes) && (st.ComponentTypes[id] != comps.All[c].Type || st.ComponentTypeNames[id] != comps.All[c].Type.Name()) {
 			fail(sigp+"|world|component-types", "%s: component ID %d is reported as type %v, registered as %v", where, id, st.ComponentTypes[id], comps.All[c].Type)
